@@ -363,3 +363,23 @@ let () = register "ref" (fun args ->
          end
        with Unsup why -> "unsupported:" ^ why ^ "\t-")
     | _ -> "error\targs")
+
+
+(* wa <hex sexp items> -> "<in_fragment> <well_annotated> <prog_good>" (t/f each): do the proved theorem's hypotheses
+   (Refine.v) describe what the REAL parser produced for this program? *)
+let () = register "wa" (fun args ->
+    match args with
+    | [hexsrc] ->
+      (try
+         reset_syms ();
+         let items = parse_sexps (unhex hexsrc) in
+         let has_toplevel_block = List.exists (function L (A "block" :: _) -> true | _ -> false) items in
+         let (p, exprs) = conv_items items in
+         let b x = if x then "t" else "f" in
+         if has_toplevel_block then "unsupported:toplevel-block"
+         else
+           b (List.for_all in_fragment exprs) ^ "\t" ^
+           b (well_annotated_toplevel exprs && List.for_all (fun (_, fd) -> body_ok fd.fbody || not (List.for_all in_fragment fd.fbody)) p.funs) ^ "\t" ^
+           b (prog_good p)
+       with Unsup why -> "unsupported:" ^ why)
+    | _ -> "error\targs")
